@@ -6,9 +6,7 @@ from .readerlib import both_modes, dump_dict, canon
 ID = 'C10'
 TARGETS = ['theories/Properties/C10.vo']
 THEOREMS = core.theorems_of(ID)
-LEVEL = ('reader model with the skip_frames branch (seek / hashed copy to raw_len - (1 + Game End size)) tied to the code by differential runs; oracle on the '
-         'real library: skip read = full read on start/end/metadata, zero frames, and the result survives write + re-read in .slp and .slpp '
-         '(.slpp half: see C02/C18 model)')
+LEVEL = ('proved (Properties/C10.v): for EVERY finished well-formed replay (any version, gecko blocks, single or doubled Game End, metadata or none), hashing on or off, the skipping read succeeds, consumes the whole file and returns the same start, end and metadata as the full read with an empty frame set; reader model tied to the code by differential runs; oracle on the real library: skip read = full read, zero frames, and the result survives write + re-read in .slp and .slpp (.slpp half: C02/C18 model + runs)')
 KEYS = ('start.bytes', 'start.json', 'end.bytes', 'end.json', 'metadata')
 
 
